@@ -99,7 +99,7 @@ class DyadCarrier(object):
         if len(ulist) != len(vlist):
             raise TypeError("Number of vectors in u ({}) and v({}) should be equal".format(len(ulist), len(vlist)))
 
-        for i, (ui, vi) in enumerate(zip(ulist, vlist)):
+        for i, (ui, vi) in enumerate(list(zip(ulist, vlist))):  # snapshot: u, v may be this carrier's own lists (A += A)
             # Make sure they are numpy arrays
             if not isinstance(ui, np.ndarray):
                 ui = np.array(ui)
